@@ -129,8 +129,23 @@ def lean_audit(theorems: list[str]) -> dict[str, object]:
     return res
 
 
-def proof_obligations(theorems: list[str]) -> dict[str, object]:
-    """Build + forbidden-token grep + axiom audit. Returns a summary dict."""
+def lean_recheck(theorems: list[str]) -> tuple[bool, str, list[str]]:
+    """thorough tier: replay the compiled modules that define the registered theorems (and every proof module)
+    through `leanchecker`, the toolchain's independent kernel re-checker of .olean files"""
+    mods = sorted({"DepLogic.Proofs." + p.stem for p in (LEAN / "DepLogic" / "Proofs").glob("*.lean")} |
+                  {"DepLogic.Properties." + p.stem for p in (LEAN / "DepLogic" / "Properties").glob("*.lean")})
+    import fcntl
+    with open(LEAN / ".lake-verif.lock", "w") as lock:
+        fcntl.flock(lock, fcntl.LOCK_EX)
+        try:
+            p = subprocess.run(["lake", "env", "leanchecker"] + mods, cwd=LEAN, capture_output=True, text=True, timeout=3000)
+        finally:
+            fcntl.flock(lock, fcntl.LOCK_UN)
+    return p.returncode == 0, (p.stdout + p.stderr)[-1500:], mods
+
+
+def proof_obligations(theorems: list[str], tier: str = "quick") -> dict[str, object]:
+    """Build + forbidden-token grep + axiom audit (+ leanchecker in the thorough tier). Returns a summary dict."""
     ok, out = lean_build()
     summary: dict[str, object] = {"build_ok": ok, "theorems": len(theorems), "discharged": 0, "broken": []}
     if not ok:
@@ -151,6 +166,11 @@ def proof_obligations(theorems: list[str]) -> dict[str, object]:
             broken.append({"what": f"theorem {t} uses foreign axioms", "detail": ax})
         else:
             n += 1
+    if tier == "thorough":
+        rok, rout, mods = lean_recheck(theorems)
+        summary["leanchecker"] = {"ok": rok, "modules": len(mods)}
+        if not rok:
+            broken.append({"what": "leanchecker rejected a compiled module", "detail": rout})
     summary["discharged"] = n
     summary["broken"] = broken
     summary["axioms"] = {t: audit.get(t) for t in theorems}
@@ -318,7 +338,10 @@ class Run:
         cov = {
             "obligations": int(self.proof.get("theorems", 0)) or len(self.theorems),
             "discharged": int(self.proof.get("discharged", 0)),
-            "checker_cmd": "cd lean && lake build && lake env lean <Audit: #print axioms of each property theorem>",
+            "checker_cmd": "cd lean && lake build && lake env lean <Audit: #print axioms of each property theorem>"
+                           + (" && lake env leanchecker <all DepLogic.Proofs.* and DepLogic.Properties.* modules>"
+                              if self.tier == "thorough" else ""),
+            "leanchecker": self.proof.get("leanchecker"),
             "trusted_base": TRUSTED_BASE,
             "theorems": self.theorems,
             "axioms": self.proof.get("axioms", {}),
